@@ -134,6 +134,9 @@ class DirectoryApp:
     @wsgify
     def __call__(self, req):
         path = os.path.abspath(os.path.join(self.path, req.path_info.lstrip("/")))
+        if not (path + os.path.sep).startswith(self.path):
+            # outside of the served directory: do not even look at it
+            return exc.HTTPForbidden()
         if os.path.isdir(path) and self.index_page:
             return self.index(req, path)
         if (
